@@ -804,8 +804,8 @@ func run(c *vf.Ctx) {
 	tmp := vf.TempDir("c26")
 	defer os.RemoveAll(tmp)
 
-	nPlain := c.N(300, 9000)
-	nKill := c.N(60, 2400)
+	nPlain := c.N(300, 3000)
+	nKill := c.N(60, 900)
 	type job struct{ seq, nops, kills int }
 	jobs := make(chan job, 16)
 	var wg sync.WaitGroup
@@ -852,5 +852,5 @@ func run(c *vf.Ctx) {
 	c.Count("child_processes_spawned", int64(spawns))
 	c.Count("distinct_child_pids_answering", int64(len(allPids)))
 	probes(c, tmp)
-	c.Require(int64(c.N(250, 8000)), c.N(100, 4000))
+	c.Require(int64(c.N(250, 3000)), c.N(100, 1500))
 }
